@@ -325,6 +325,9 @@ func runScenario(sc *Scenario, tier string, spec *Spec, part *Part) {
 			gs, _ := splitDesc(got)
 			if gs != sig || (i > 0 && r.Trace != first) {
 				ok = false
+				if os.Getenv("VERIF_TIMING") != "" {
+					fmt.Fprintf(os.Stderr, "NONDET replay %d of %q: got %q trace %x first %x nchoices %d/%d desc=%s\n", i, sig, got, r.Trace, first, len(r.Choices), len(v.Choices), v.Desc)
+				}
 			}
 			if i == 0 {
 				first = r.Trace
